@@ -42,11 +42,18 @@ def _line(n):
 
 
 def _once_bound_decls(ix, fn):
-  """decl id -> VarDecl node, for the once-bound locals of fn."""
-  env = U.once_bound_env(ix, fn)
+  """decl id -> VarDecl node, for the locals of fn that denote their
+  initialiser: declared const / pointer / reference / scalar with an
+  initialiser and never assigned, incremented, address-taken or mutated."""
+  written = U.written_vars(fn.body)
+  skip = U._range_for_decls(fn.body)
   out = {}
   for n in cxx.walk(fn.body):
-    if n.get("kind") == "VarDecl" and n.get("id") in env:
+    if n.get("kind") != "VarDecl" or not n.get("init") or n.get("id") in skip or \
+        n["id"] in written:
+      continue
+    ty = cxx.qual_type(n).strip()
+    if U._simple_type(ty) or ty.endswith("const"):
       out[n["id"]] = n
   return out
 
@@ -156,8 +163,10 @@ class _Producers:
         if len(args) != 2:
           unknown.append(f"line {_line(r)}: Solver::Solve with {len(args)} arguments")
           continue
-        ot = uncast(term(ix, obj, U.once_bound_env(ix, fn))) if obj is not None else None
-        if "Program::GetSolver" not in str(ot):
+        oe = _resolve(obj, decls) if obj is not None else None
+        if oe is None or oe.get("kind") != "CXXMemberCallExpr" or \
+            (ix.callee(oe)[0] or "").split("(")[0] != "Program::GetSolver":
+          ot = uncast(term(ix, obj)) if obj is not None else None
           unknown.append(f"line {_line(r)}: Solve is called on {U.show(ot)}, not on "
                          "Program::GetSolver()")
           continue
@@ -238,7 +247,7 @@ def _is_one(ix, t, pol, size_of):
   return (op == ">" and n == 1) or (op == ">=" and n == 2)
 
 
-@rule("R7.7", "C07", floor=7)
+@rule("R7.7", "C07", floor=8)
 def r7_7(ctx):
   """IsVisible / HasCombination / strict Filter answer with Solver::Solve on every path."""
   ix = cxx.get_index(ctx)
